@@ -54,7 +54,8 @@ prop("C09", "Message structures: accepted iff they match their CDDL, slots map t
                   "header maps with at most 1 entry in total per input (C08 explores headers); nesting "
                   "depth 4; integers: all of [-2^64, 2^64-1]; byte strings: symbolic 64-bit length; "
                   "COSE_Sign / COSE_Recipient with up to 3 nested siblings (order of signatures / recipients); "
-                  "counter-signature nesting spines of 1..12 levels (protected / unprotected headers, bare / "
+                  "counter-signature nesting spines of 1..12 levels (hanging off a COSE_Sign1, a standalone "
+                  "COSE_Signature and the signer of a COSE_Sign; protected / unprotected headers, bare / "
                   "list form): accepted exactly up to the crate's documented MAX_COUNTER_SIGNATURE_DEPTH",
          "thorough": "arity 0..7, 14 array elements and 2 map entries per input, depth 5, text <= 2; spines to 16 levels",
      },
@@ -100,7 +101,9 @@ prop("C08", "Header maps: accepted iff well-formed, and every field means what t
      bounds={
          "quick": "header maps with <= 2 entries (every kind of key and value, all integer labels and values, "
                   "text <= 2 bytes (any UTF-8), nested arrays <= 3 elements, 5 array elements in total) standalone; "
-                  "as unprotected header and inside the protected bstr of a COSE_Encrypt0 with 1 entry in total",
+                  "as unprotected header and inside the protected bstr of a COSE_Encrypt0 with 1 entry in total; "
+                  "header maps with exactly 3 entries whose values are integers or byte strings (all integer labels, "
+                  "text labels <= 2 bytes): which labels count as repeated, wire order of the extras",
          "thorough": "<= 3 entries standalone (text <= 3), 2 entries in total inside the carrier",
      },
      outside="maps with more entries; content-type text longer than 5 bytes is ASCII only; the claim that the "
@@ -116,7 +119,8 @@ prop("C10", "COSE_Key / COSE_KeySet: accepted iff well-formed, parameters map to
 
 prop("C18", "CWT claims sets and KDF contexts decode and encode per their definitions",
      mirsym={"jobs": _jl("c18"), "budget_s": {"quick": 900, "thorough": 3000}},
-     bounds={"quick": "claims maps <= 2 entries; COSE_KDF_Context arrays of arity 0..6 with every kind per slot, "
+     bounds={"quick": "claims maps <= 2 entries, and claims maps with exactly 3 entries whose values are integers "
+                      "or byte strings; COSE_KDF_Context arrays of arity 0..6 with every kind per slot, "
                       "PartyInfo / SuppPubInfo arrays of arity 0..5",
              "thorough": "claims maps <= 3 entries, KDF context arity 0..7"},
      outside="encode direction is covered by C11's check; larger maps", assumptions=[])
@@ -136,7 +140,8 @@ _STRUCT_BOUNDS = {
              "protected bytes and once as its builder-made twin (retained bytes dropped); external AAD, "
              "detached payload, payload, signature/tag/ciphertext: byte strings of symbolic 64-bit length; "
              "the free structure functions with every context and protected headers from the palette "
-             "{decoded-from-wire, built empty, built alg-only, built kid-only, built one extra parameter}; "
+             "{decoded-from-wire, built empty, built alg-only, built kid-only, built one extra parameter, built "
+             "with an extra parameter repeating a typed field's label (no encoding exists: must refuse)}; "
              "the create / try-create builder helpers after every history of <= 4 builder calls (3 for "
              "COSE_Sign1 / COSE_Sign / COSE_Recipient; headers from a 2-element palette): the creator receives the RFC structure of the builder's current state",
     "thorough": "2 header entries in total, 2 nested structures, depth 5; builder histories of <= 4 calls",
@@ -163,8 +168,10 @@ prop("C06", "What is signed, MACed or encrypted is what is later verified or dec
                       "try-create (succeeding or failing creator), create-detached} for the seven message "
                       "builders, headers from a 4-element palette, all byte strings symbolic; then build, "
                       "encode/decode at the Value level, the byte level and (where defined) the tagged level, "
-                      "verify/decrypt with the same or a different AAD; COSE_Sign with up to 3 signers",
-             "thorough": "sequences of <= 4 calls"},
+                      "verify/decrypt with the same or a different AAD; COSE_Sign with up to 3 signers; "
+                      "COSE_Sign histories of <= 2 calls whose signature templates are COSE_Signatures decoded from "
+                      "the wire (protected header with arbitrary retained bytes, <= 1 map entry)",
+             "thorough": "sequences of <= 4 calls; wire-template histories of <= 3 calls"},
      outside="longer histories; perturbation of payload/protected header is covered through C03-C05's injectivity",
      assumptions=_STRUCT_ASSUME + ["parse(enc(v)) = v for byte strings written on the same path"])
 
@@ -190,7 +197,8 @@ prop("C11", "Encoding emits exactly the modelled content in the documented CBOR 
      mirsym={"jobs": _jl("c11"), "budget_s": {"quick": 900, "thorough": 3000}},
      bounds={"quick": _RT_BOUNDS["quick"] + "; values are the builder-made twins of decoded values (retained "
                       "bytes dropped) plus struct literals of Header / CoseKey / ClaimsSet with every subset of "
-                      "typed fields and 2 arbitrary extra labels",
+                      "typed fields and 2 arbitrary extra labels; values carrying a counter-signature spine of 1..8 "
+                      "levels (three roots, four variants) encode and decode back",
              "thorough": _RT_BOUNDS["thorough"] + "; 3 arbitrary extra labels"},
      outside="byte-level well-formedness of the output is ciborium's (serialiser stub)",
      assumptions=["parse(enc(v)) = v for byte strings written on the same path"])
